@@ -22,7 +22,22 @@ func NonCanonical(r *rand.Rand) []byte {
 	n := 1 + r.IntN(4)
 	for i := 0; i < n; i++ {
 		var o []byte
-		switch r.IntN(16) {
+		switch r.IntN(18) {
+		case 16, 17: // identifiers written by hand: every DUID kind with the hardware types and address lengths that exist
+			pairs := [][2]int{{1, 6}, {6, 6}, {27, 8}, {32, 20}, {32, 8}, {24, 8}, {1, 20}, {32, 19}, {32, 21}, {0, 0}, {65535, 3}}
+			pr := pairs[r.IntN(len(pairs))]
+			var d []byte
+			switch r.IntN(4) {
+			case 0:
+				d = append([]byte{0, 3, byte(pr[0] >> 8), byte(pr[0])}, gen4.Bytes(r, pr[1])...)
+			case 1:
+				d = append(append([]byte{0, 1, byte(pr[0] >> 8), byte(pr[0])}, be32(r.Uint32())...), gen4.Bytes(r, pr[1])...)
+			case 2:
+				d = append(append([]byte{0, 2}, be32(r.Uint32())...), gen4.Bytes(r, r.IntN(24))...)
+			default:
+				d = append([]byte{0, 4}, gen4.Bytes(r, 16)...)
+			}
+			o = tlv(1+r.IntN(2), d)
 		case 14, 15: // names within a few octets of the 255-octet limit, ended by root / end of option / pointer
 			v := reflabel.Boundary(r)
 			switch r.IntN(3) {
